@@ -122,6 +122,10 @@ def direct_transform(fr, dr=None, r=None, direction='inverse',
         with either the direct or the inverse abel transform.
     """
 
+    if direction not in ('forward', 'inverse'):
+        raise ValueError('Wrong direction "{}", must be "forward" or '
+                         '"inverse"'.format(direction))
+
     backend = backend.lower()
     if backend not in ['c', 'python']:
         raise ValueError
